@@ -340,6 +340,20 @@ pub fn gen(out: &mut dyn std::io::Write, thorough: bool, seed: u64) {
             }
             tl.push(s);
         }
+        // many lines through one run of the tool (the sentence objects are reused for every line), once per run of the generator
+        if i == 0 {
+            let many: Vec<String> = (0..300).map(|k| match k % 7 {
+                0 => String::new(),
+                1 => (0..r.range(1, 4)).map(|_| *r.pick(SAMELEN)).collect(),
+                _ => gen_text_tags(&mut r, &m, &alpha, 9),
+            }).collect();
+            let stdin_many = many.join("\n") + "\n";
+            let ls = lines_of(&stdin_many);
+            for flags in ["", "ts", "ntsg"] {
+                let cl = clusters_text(&ls, flags.contains('n'), false);
+                writeln!(out, "CP {flags}:- {mt} {} {cl} c20", hexs(&stdin_many)).unwrap();
+            }
+        }
         let estdin = tl.join("\n") + "\n";
         let elines = lines_of(&estdin);
         for mask in 0..8 {
